@@ -170,9 +170,9 @@ def census_diff():
 
 
 # what a run has to contain to count as the run the evidence describes: ABSOLUTE floors (scaled down
-# only for runs below 100 000 lines); the quick tier has at least 2.5x margin on each (see docs/C08.md)
+# only for runs below 100 000 lines); fixed lists K, S, V have 1.24x-1.4x margin (seed-independent), the seeded kinds at least 7x (see docs/C08.md)
 KIND_FLOORS = {"K": 100, "W": 800, "T": 5000, "U": 8000, "M": 20000, "C": 2000, "R": 5000, "P": 2000, "S": 1000,
-               "Q": 2000, "F": 2000}
+               "Q": 2000, "F": 2000, "V": 100}
 NOTRUN_CAP = 20
 
 
@@ -201,7 +201,7 @@ def post(lines, verdicts):
         small_ok += impl.rstrip().endswith("s=ok")
     scale = min(1.0, len(lines) / 100000.0)
     for k, floor in KIND_FLOORS.items():
-        need = floor if k in ("K", "S") else int(floor * scale)
+        need = floor if k in ("K", "S", "V") else int(floor * scale)
         if kinds.get(k, 0) < need:
             out.append(("diff", f"coverage kind {k}", f"diff coverage-floor kind {k}: {kinds.get(k, 0)} cases < {need}"))
     for name, got, need in (("frames decoded successfully", ok_frames, int(10000 * scale)),
@@ -223,7 +223,25 @@ def extra_coverage(lines, verdicts):
     kinds = {}
     outcomes = {}
     maxreq = 0
+    sub = {"q2_ok": 0, "q2_err": 0, "P_accepted": 0, "P_refused": 0, "typed_rows_ok": 0, "typed_rows_failing": 0,
+           "tablets_accepted": 0, "frames_accepted": 0}
+    tuples = {}
     for ln in lines:
+        k0 = ln.split(" ", 1)[0]
+        kinds[k0] = kinds.get(k0, 0) + 1
+        raw = ln.split("|", 1)[1] if "|" in ln else ""
+        sub["q2_ok"] += " q2=ok:" in raw
+        sub["q2_err"] += " q2=err:" in raw
+        sub["P_accepted"] += k0 == "P" and " ok Rows(" in raw
+        sub["P_refused"] += k0 == "P" and raw.lstrip().startswith("err ")
+        sub["typed_rows_ok"] += " tv=ok" in raw
+        sub["typed_rows_failing"] += " tv=err@" in raw
+        sub["tablets_accepted"] += " tb=ok:" in raw
+        sub["frames_accepted"] += " ok F(" in raw or " ok Rows(" in raw
+        m = re.search(r" tv=\S*,(t[1-5]):(ok|err)", raw)
+        if m:
+            key = m.group(1) + "_" + ("ok" if m.group(2) == "ok" else "failing")
+            tuples[key] = tuples.get(key, 0) + 1
         impl = ln.split("|", 1)[1].split() if "|" in ln else []
         impl = [x for x in impl if not x.startswith("dc=")]
         key = " ".join(impl[:3]) if impl and impl[0] == "err" else (impl[0] if impl else "?")
@@ -239,6 +257,9 @@ def extra_coverage(lines, verdicts):
         if m:
             classes[m.group(1)] = classes.get(m.group(1), 0) + 1
     return {
+        "cases_per_kind": dict(sorted(kinds.items())),
+        "sub_counts": sub,
+        "tuple_targets": dict(sorted(tuples.items())),
         "not_run_env": notrun,
         "runner_env": {"VERIF_C08_DRIVER": os.environ.get("VERIF_C08_DRIVER"),
                        "VERIF_C08_ULIMIT_KB": os.environ.get("VERIF_C08_ULIMIT_KB", "default 8388608"),
@@ -272,6 +293,7 @@ SPEC = {
              "Q = two consecutive frames (whole / cut / first one mutated) delivered by a custom AsyncRead in chunks "
              "(1 byte at a time, 8+1+1+3, 9+1+rest, all at once, random 1..5, random 1..64; the schedule is reported as sch=), the first decoded, then a second read_response_frame on the same reader; "
              "both reads compared with the extracted model of the chunked reader (read_frame_chunked / reader_after on the chunks of that schedule), which must also agree with the all-at-once read_frame; "
+             "V = 138 fixed Rows frames with one typed cell whose element count is inflated (list / set / map / nested list: 2^16, 2^24, i32::MAX with 0, 1, 8 elements behind, the count cut; an honest 2^10 for contrast; vectors with 65535 declared dimensions), both decoder generations; "
              "F = mutations derived from the extracted encoder: one length / count / id / flag field of the AST re-encoded with a boundary value or off by one. "
              "On every accepted frame also: "
              "typed rows (rows_iter::<Row>() over CqlValue, position of the first failure; and the first of five typed tuple targets "
